@@ -51,6 +51,12 @@ pub fn expected_display(rd: i64) -> String {
     format!("{}, {} {}, {} {}", WEEKDAYS[wd], MONTHS[(m - 1) as usize], d, ry, if pre { "B.H." } else { "A.H." })
 }
 
+thread_local! {
+    /// the date converted just before on this thread (a result that depends on it is a defect; the replay
+    /// file records it so that the sequence can be repeated)
+    static LAST_RD: std::cell::Cell<Option<i64>> = const { std::cell::Cell::new(None) };
+}
+
 fn observe(rd: i64) -> Result<(i64, i64, i64, bool, i64, String), String> {
     let d = date_of_rd(rd);
     catch_unwind(AssertUnwindSafe(|| {
@@ -65,7 +71,11 @@ fn one(ctx: &mut Ctx, rd: i64) {
     let (y, m, d) = islamic_from_fixed(rd);
     let (ry, pre) = reported_year(y);
     let civil_wd = date_of_rd(rd).weekday().num_days_from_sunday() as i64 + 1; // 1 = Sunday (Ahad)
-    let input = json!({"kind": "date", "rd": rd, "date": ymd(rd)});
+    let prev = LAST_RD.with(|c| c.replace(Some(rd)));
+    let mut input = json!({"kind": "date", "rd": rd, "date": ymd(rd)});
+    if let Some(pr) = prev {
+        input["after_rd"] = json!(pr);
+    }
     let want = format!("{} {} {} pre={} weekday={}", ry, m, d, pre, civil_wd);
     match observe(rd) {
         Err(e) => ctx.fail(input, e, want),
@@ -87,7 +97,13 @@ fn one(ctx: &mut Ctx, rd: i64) {
 pub fn c17(ctx: &mut Ctx, tier: &str, r: &mut Rng, js: &[Value], _reqs: &[String], replay_only: bool) {
     for v in js {
         if let Some(rd) = v.get("rd").and_then(|x| x.as_i64()) {
+            // first on a fresh history, then after the date that preceded it in the recorded run
             one(ctx, rd);
+            if let Some(pr) = v.get("after_rd").and_then(|x| x.as_i64()) {
+                let _ = observe(pr);
+                LAST_RD.with(|c| c.set(Some(pr)));
+                one(ctx, rd);
+            }
         }
     }
     if replay_only {
